@@ -1,0 +1,52 @@
+//go:build verif
+// +build verif
+
+package hls
+
+// Inspectors for the verification harness (build tag verif only): read-only snapshots of the
+// segment generator and the playlist.
+
+// VerifSegment describes one segment.
+type VerifSegment struct {
+	SequenceNo       int
+	Duration         float64
+	URI              string
+	StartPts         int64
+	IsSequenceHeader bool
+}
+
+func verifSeg(s *segment) VerifSegment {
+	return VerifSegment{s.sequenceNo, s.duration, s.uri, s.segmentStartPts, s.isSequenceHeader}
+}
+
+// VerifSegments lists the segments of the playlist.
+func (pl *Playlist) VerifSegments() []VerifSegment {
+	pl.l.RLock()
+	defer pl.l.RUnlock()
+	out := make([]VerifSegment, 0, len(pl.segments))
+	for _, s := range pl.segments {
+		out = append(out, verifSeg(s))
+	}
+	return out
+}
+
+// VerifCurrent returns the open segment (ok=false when none is open), the sequence counter
+// and whether audio is being cached.
+func (sg *SegmentGenerator) VerifCurrent() (cur VerifSegment, ok bool, sequenceNo int, audioCached bool) {
+	if sg.current != nil {
+		cur, ok = verifSeg(sg.current), true
+	}
+	return cur, ok, sg.sequenceNo, sg.afCache != nil
+}
+
+// VerifCurrentBytes returns a copy of what has been written to the open memory segment
+// (nil for persistent segments or when none is open).
+func (sg *SegmentGenerator) VerifCurrentBytes() []byte {
+	if sg.current == nil {
+		return nil
+	}
+	if mf, ok := sg.current.file.(*memorySegmentFile); ok && mf.file != nil {
+		return append([]byte(nil), mf.file.Bytes()...)
+	}
+	return nil
+}
